@@ -15,8 +15,13 @@
 //	r.F(x) with F another chain of the same file: inlined with fresh registers (tower)
 //	return z / return z.M(args)
 //
-// Register 0 is the parameter, register 1 the receiver, the others are the locals in declaration order. The receiver and
-// the parameter are assumed not to alias (aliasing is C19's subject).
+// Register 0 is the parameter, register 1 the receiver, the others are the locals in declaration order. Tower and curve
+// functions (pointer parameter) are translated twice: receiver and parameter distinct, and the in-place call v.F(&v) where
+// they are ONE register. Trusted reading of the primitives: every method of the tables writes its receiver only, reads its
+// operands before it writes, and returns its receiver (so that a.M(..).N(..) is a.M(..); a.N(..)): for the tower and point
+// methods this is what C19 proves about the translated bodies; nSquare / nSquareCompressed are compared as text;
+// DecompressKarabina and one slot of BatchDecompressKarabina are the same abstract operation `dec`; DoubleAssign is
+// Double on the same variable; SubAssign(q) is Neg(q) into a fresh register followed by AddAssign.
 package main
 
 import (
@@ -308,6 +313,9 @@ func (c *chCtx) block(stmts []ast.Stmt, top bool) {
 	for si, st := range stmts {
 		switch s := st.(type) {
 		case *ast.DeclStmt:
+			if !top {
+				c.fail(s, "declaration inside a loop")
+			}
 			gd, ok := s.Decl.(*ast.GenDecl)
 			if !ok || gd.Tok != token.VAR {
 				c.fail(s, "unsupported declaration")
@@ -316,7 +324,7 @@ func (c *chCtx) block(stmts []ast.Stmt, top bool) {
 				c.declare(sp.(*ast.ValueSpec))
 			}
 		case *ast.AssignStmt:
-			if s.Tok != token.DEFINE || len(s.Lhs) != 1 || len(s.Rhs) != 1 {
+			if s.Tok != token.DEFINE || len(s.Lhs) != 1 || len(s.Rhs) != 1 || !top {
 				c.fail(s, "unsupported assignment")
 			}
 			id, ok := s.Lhs[0].(*ast.Ident)
